@@ -294,13 +294,19 @@ def writeOutput {γ δ} (base : Nat → Nat) (chan0 : δ → γ) (key : String) 
 
 /-- what the translator must report about `write_output_to_h5` -/
 def expectedWriterFacts : List String :=
-  ["if create_dirs_if_needed[output_directory.mkdir(exist_ok=True, parents=True)]",
-   "for idx, (volume, _, filename) in enumerate(output)",
-   "if isinstance(filename, pathlib.PosixPath)[filename=filename.name]",
-   "reconstruction=volume.numpy()[:, 0, ...].astype(np.float32)",
-   "if volume_processing_func[reconstruction=volume_processing_func(reconstruction)]",
-   "with h5py.File(output_directory / filename, 'w')[f.create_dataset(output_key, data=reconstruction)]",
-   "default output_key='reconstruction'"]
+  ["if create_dirs_if_needed",
+   "  output_directory.mkdir(exist_ok=True, parents=True)",
+   "for (idx, (volume, _, filename)) in enumerate(output)",
+   "  if isinstance(filename, pathlib.PosixPath)",
+   "    filename=filename.name",
+   "  reconstruction=volume.numpy()[:, 0, ...].astype(np.float32)",
+   "  if volume_processing_func",
+   "    reconstruction=volume_processing_func(reconstruction)",
+   "  with h5py.File(output_directory / filename, 'w') as f",
+   "    f.create_dataset(output_key, data=reconstruction)",
+   "default output_key='reconstruction'",
+   "default create_dirs_if_needed=True",
+   "default volume_processing_func=None"]
 
 /-- … about `Engine.predict`, `build_loader`, `build_batch_sampler`, `_compute_resolution` -/
 def expectedPredictFacts : List String :=
